@@ -21,10 +21,11 @@ from harness.core import Ctx, Driver
 from harness import lib_cm as cm
 from harness.props import c01_exact
 
-PROPS = ['XsVerif.Props.C01', 'XsVerif.Props.C01Exact']
+PROPS = ['XsVerif.Props.C01', 'XsVerif.Props.C01Exact', 'XsVerif.Props.C01Default']
 AUDIT = 'XsVerif.Audit.C01'
-LEAN_TARGETS = ['XsVerif.Props.C01', 'XsVerif.Props.C01Exact', 'drv_c01']
-LEANCHECK = ['XsVerif.Model.Rx', 'XsVerif.Lemmas.Rx', 'XsVerif.Model.Particle', 'XsVerif.Props.C01'] + c01_exact.LEANCHECK
+LEAN_TARGETS = ['XsVerif.Props.C01', 'XsVerif.Props.C01Exact', 'XsVerif.Props.C01Default', 'drv_c01']
+LEANCHECK = ['XsVerif.Model.Rx', 'XsVerif.Lemmas.Rx', 'XsVerif.Model.Particle', 'XsVerif.Props.C01',
+             'XsVerif.Model.DefaultOpen', 'XsVerif.Props.C01Default'] + c01_exact.LEANCHECK
 RULE = ('case = (XSD version, content model, child word). Models: the complete family with ≤2 leaves over {a,b} '
         '(+ wildcard leaf) with occurrences from {1,?,*,+,{2,2},{1,2},{0,0}} nested to depth 2, a seeded stratified '
         'sample of the 3-leaf family, seeded random larger models (depth ≤3, substitution-group heads, wildcards, '
@@ -40,6 +41,77 @@ ASSUMPTIONS = ['open-content wildcards use processContents=lax (the strict branc
                'UPA for open content: the wrapped model must be deterministic; competition between the open wildcard and the model is resolved in favour of the model (XSD 1.1)']
 
 KNOWN_ID = 'C01-F0'
+
+
+# ---------------------------------------------------------------------------------------------
+# schema-level xs:defaultOpenContent: oc = (mode, namespace, processContents, 'default', appliesToEmpty in
+# {'omit','false','true'}, 'plain'|'mixed' [, 'absent' = the complex type has no model group child])
+
+def is_default(oc: Optional[tuple]) -> bool:
+    return oc is not None and len(oc) > 3 and oc[3] == 'default'
+
+
+def explicit_empty(ast: tuple, absent: bool) -> bool:
+    """Python mirror of Lean `explicitEmpty` (Structures 1.1 §3.4.2.3.3 clause 2.1); compared with the
+    Lean verdict ('ap') on every model."""
+    if absent:
+        return True
+    if ast[3] == 0:
+        return True
+    return not ast[4] and (ast[1] != 'choice' or ast[2] == 0)
+
+
+def default_applies(ast: tuple, oc: tuple) -> bool:
+    return oc[5] == 'mixed' or not explicit_empty(ast, len(oc) > 6) or oc[4] == 'true'
+
+
+def build_default_schema(models: list[tuple], oc: tuple):
+    import xmlschema
+    tag, rest = cm.HEAD.split('\n', 1)
+    ate = '' if oc[4] == 'omit' else f' appliesToEmpty="{oc[4]}"'
+    doc = (f'<xs:defaultOpenContent mode="{oc[0]}"{ate}><xs:any namespace="{oc[1]}" processContents="{oc[2]}"/>'
+           '</xs:defaultOpenContent>')
+    mixed = ' mixed="true"' if oc[5] == 'mixed' else ''
+    defs: list = []
+    body = []
+    for k, m in enumerate(models):
+        grp = '' if len(oc) > 6 else cm.to_xsd(m, defs, {})
+        body.append(f'<xs:element name="m{k}"><xs:complexType{mixed}>{grp}</xs:complexType></xs:element>')
+    return xmlschema.XMLSchema11(tag + '\n' + doc + rest + '\n'.join(defs + body) + '</xs:schema>', validation='lax')
+
+
+def build_any(models: list[tuple], v11: bool, oc: Optional[tuple]):
+    return build_default_schema(models, oc) if is_default(oc) else cm.build_schema(models, v11, oc=oc)
+
+
+def oc_request(schema: Any, xe: Any, intro: Any, oc: Optional[tuple]):
+    """the open-content part of a driver request: (oc json, dflt json)"""
+    if oc is None:
+        return None, None
+    dflt = None
+    if is_default(oc):
+        wobj = schema.default_open_content.any_element
+        dflt = {'ate': oc[4] == 'true', 'mixed': oc[5] == 'mixed', 'absent': len(oc) > 6}
+    else:
+        wobj = xe.type.open_content.any_element
+    ocj = {'mode': oc[0], 'wild': intro.walk(wobj), 'pc': oc[2] if len(oc) > 2 else 'lax',
+           'globals': [cm.split_qname(n) for n in schema.maps.elements]}
+    return ocj, dflt
+
+
+def default_models(rng, n_random: int) -> list[tuple]:
+    """explicitly empty groups of every kind and range + small and random non-empty models.  Excluded:
+    the empty choice with minOccurs>=1 (empty language: applicability is unobservable) and a NON-empty
+    top group with maxOccurs=0 (clause 2.1.4; the pinned library opens it: reported, not judged here)."""
+    out = [('g', 'sequence', lo, hi, []) for lo, hi in ((1, 1), (0, 1), (0, 0), (2, 2), (0, None), (1, None))]
+    out += [('g', 'all', 1, 1, []), ('g', 'all', 0, 1, [])]
+    out += [('g', 'choice', 0, hi, []) for hi in (1, 0, None, 2)]
+    out += [('g', 'sequence', 1, 1, [('e', 'a', 0, 1)]), ('g', 'sequence', 1, 1, [('e', 'a', 0, 0)]),
+            ('g', 'sequence', 1, 1, [('g', 'sequence', 1, 1, [])]), ('g', 'choice', 0, 1, [('e', 'a', 1, 1)]),
+            ('g', 'sequence', 0, 1, [('e', 'a', 1, 1), ('e', 'b', 0, None)]), ('g', 'all', 0, 1, [('e', 'a', 0, 1)]),
+            ('g', 'choice', 1, 1, [('g', 'choice', 0, 1, [])])]
+    out += [cm.random_model(rng, ['a', 'b'], max_depth=2, v11=True, any_p=0.0) for _ in range(n_random)]
+    return [m for m in out if not (m[3] == 0 and m[4])]
 
 
 def validate_word(xsd_element: Any, k: int, word: list[str], ids: dict[int, int]):
@@ -68,7 +140,8 @@ def prepare_batch(args):
     import random
     models, v11, maxlen, fam, oc, quick, seed = args
     rng = random.Random(seed)
-    schema = cm.build_schema(models, v11, oc=oc)
+    schema = build_any(models, v11, oc)
+    dflt = is_default(oc)
     reqs, pend, counts, glue = [], [], {}, []
     for k, ast in enumerate(models):
         xe = schema.elements[f'm{k}']
@@ -90,12 +163,8 @@ def prepare_batch(args):
         alpha = cm.alphabet(ast)
         if 'h' in alpha and 'q' not in alpha:
             alpha = alpha + ['q']       # the abstract member: must never be accepted
-        foreign = [s for s in (('o', 'c') if oc else ('c', 'o')) if s not in alpha][:1]
-        ocj = None
-        if oc is not None:
-            wobj = xe.type.open_content.any_element
-            ocj = {'mode': oc[0], 'wild': intro.walk(wobj), 'pc': oc[2] if len(oc) > 2 else 'lax',
-                   'globals': [cm.split_qname(n) for n in schema.maps.elements]}
+        foreign = [s for s in (('o', 'c') if oc else ('c', 'o')) if s not in alpha][:2 if dflt else 1]
+        ocj, dj = oc_request(schema, xe, intro, oc)
         if quick or fam in ('random', 'group-refs', 'open-content'):
             words = cm.word_set(rng, ast, alpha + foreign, 3 if len(alpha) < 3 else 2, maxlen + 2, 40)
         else:
@@ -108,7 +177,10 @@ def prepare_batch(args):
             elem, errs, other = validate_word(xe, k, w, ids)
             valid = False if any(x.startswith('ESCAPED:') for x in other) else xe.is_valid(elem)
             impl.append({'valid': valid, 'errs': errs, 'other': other})
-        reqs.append({'n': len(intro.objs), 'model': intro.json, 'words': [cm.word_json(w) for w in words], 'oc': ocj})
+            if dflt:
+                impl[-1]['oc_applied'] = xe.type.open_content is not None
+        reqs.append({'n': len(intro.objs), 'model': intro.json, 'words': [cm.word_json(w) for w in words], 'oc': ocj,
+                     'dflt': dj})
         pend.append((ast, words, impl))
     return reqs, pend, counts, glue, (v11, fam, oc)
 
@@ -127,6 +199,16 @@ def judge_batch(ctx: Ctx, drv: Optional[Driver], prepared) -> None:
     answers = drv.query(reqs) if drv is not None and reqs else [None] * len(reqs)
     for (ast, words, impl), ans in zip(pend, answers):
         mshow = cm.show(ast)
+        dflt = is_default(oc)
+        applies = default_applies(ast, oc) if dflt else True
+        if dflt and ans is not None and 'err' not in ans:
+            ctx.count('default-open:applies=%s' % applies)
+            if ans.get('ap') != applies:
+                ctx.mismatch('defaultOpenContent applicability: Lean openContentApplies vs harness mirror',
+                             {'model': mshow, 'open_content': list(oc)}, applies, ans.get('ap'))
+            if impl and impl[0].get('oc_applied') != applies:
+                ctx.mismatch('defaultOpenContent applicability: built type vs Lean openContentApplies',
+                             {'model': mshow, 'open_content': list(oc)}, impl[0].get('oc_applied'), applies)
         for i, w in enumerate(words):
             case = {'v': '1.1' if v11 else '1.0', 'model': mshow, 'ast': ast, 'word': ''.join(w)}
             if oc:
@@ -134,8 +216,8 @@ def judge_batch(ctx: Ctx, drv: Optional[Driver], prepared) -> None:
             im = impl[i]
             nontrivial = bool(w) and (len(cm.leaves(ast)) > 1 or (ast[2], ast[3]) != (1, 1))
             ctx.case(case, nontrivial, tag=f"{case['v']}/{fam}")
-            ref = cm.ref_accepts_oc(ast, w, oc) if oc else cm.ref_accepts(ast, w)
-            if oc and len(oc) > 2 and oc[2] == 'strict' and 'o' in w:
+            ref = cm.ref_accepts_oc(ast, w, oc) if oc and applies else cm.ref_accepts(ast, w)
+            if oc and applies and len(oc) > 2 and oc[2] == 'strict' and 'o' in w:
                 # an undeclared child under a strict wildcard is an element-level error whatever the model says:
                 # the sequence must be rejected; the content-model comparison does not apply
                 ctx.count('strict-wildcard-undeclared-child')
@@ -204,6 +286,14 @@ def families(ctx: Ctx):
                ('interleave', '##other', 'strict'), ('suffix', '##other', 'strict')):
         rnd = [cm.random_model(rng, ['a', 'b'], max_depth=2, v11=True, any_p=0.0) for _ in range(ctx.pick(60, 1500))]
         yield ('open-content', oc), True, rnd, 4
+    # schema-level defaultOpenContent x appliesToEmpty x mixed x empty / non-empty / absent model group
+    for mode, ns, pc in (('interleave', '##any', 'skip'), ('suffix', '##any', 'lax'), ('interleave', '##other', 'lax'),
+                         ('suffix', '##other', 'skip')):
+        for ate in ('omit', 'false', 'true'):
+            for mixed in ('plain', 'mixed'):
+                base = (mode, ns, pc, 'default', ate, mixed)
+                yield ('default-open', base), True, default_models(rng, ctx.pick(6, 60)), 3
+                yield ('default-open', base + ('absent',)), True, [('g', 'sequence', 1, 1, [])], 3
 
 
 def fam_deadline(ctx: Ctx, fam: str) -> float:
@@ -406,13 +496,15 @@ def replay(ctx: Ctx, obj: dict) -> int:
     v11 = case['v'] == '1.1'
     drv = Driver('drv_c01')
     ctx2 = Ctx(ctx.prop, 'quick', 0)
-    schema = cm.build_schema([ast], v11)
+    oc = tuple(case['open_content']) if case.get('open_content') else None
+    schema = build_any([ast], v11, oc)
     xe = schema.elements['m0']
     intro = cm.Introspector(xe.type.content)
+    ocj, dj = oc_request(schema, xe, intro, oc)
     ids = {id(o): i for i, o in enumerate(intro.objs)}
     w = list(case['word'])
     elem, errs, other = validate_word(xe, 0, w, ids)
-    ans = drv.query([{'n': len(intro.objs), 'model': intro.json, 'words': [cm.word_json(w)]}])[0]
+    ans = drv.query([{'n': len(intro.objs), 'model': intro.json, 'words': [cm.word_json(w)], 'oc': ocj, 'dflt': dj}])[0]
     print('implementation: valid =', xe.is_valid(elem), 'children errors =', errs, other)
     print('lean: oracle(in language) =', ans['r'][0]['o'], ' visitor port =', ans['r'][0]['m'], ans['r'][0]['e'])
     return 1 if xe.is_valid(elem) != ans['r'][0]['o'] and ans['r'][0]['m'] != xe.is_valid(elem) else 0
